@@ -434,13 +434,11 @@ Section WithSig.
           | VarPos => oa_varargs (length args) args index result
           | VarKw => result
           | k =>
-              let by_name := sget args (KName (pname p)) in
-              let by_index := match k with PosOnly => sget args (kpos index) | _ => None end in
+              let key := match k with PosOnly => kpos index | _ => KName (pname p) end in
               let value :=
-                match by_name, by_index with
-                | Some v, _ => Some v
-                | None, Some v => Some v
-                | None, None =>
+                match sget args key with
+                | Some v => Some v
+                | None =>
                     match pdefault p with
                     | Some d => if f_defaults fl then Some d else None
                     | None => if f_unset fl then Some NoValue else None
@@ -467,7 +465,10 @@ Section WithSig.
                     | KPos _ => true
                     | KName n => match find_param sg n with
                                  | None => true
-                                 | Some p => pkind_eqb (pk p) VarKw
+                                 | Some p => match pk p with
+                                             | VarKw | PosOnly | VarPos => true
+                                             | _ => false
+                                             end
                                  end
                     end in
         oa_var_keyword items' (if take then sset result k v else result)
